@@ -306,12 +306,24 @@ def replay_source(a):
     return True, f"{a['src']} is accepted and compiles to: {seq}"
 
 
+def gen_stmt_lists(loader, check, replay_on=True):
+    """statement lists of if / else / for bodies and blocks, including blocks nested in blocks: every statement reaches the emitted
+    sequence, in order (the statement-list clauses of C05's callback contracts)"""
+    saved = getattr(check, "ob_filter", None)
+    check.ob_filter = r"statements-in-order|#total|in-order|runs-body-then-step|#flatten|loop\."
+    try:
+        c05.gen_stmt_callbacks(loader, check, replay_on)
+        c05.gen_task(loader, check, "flatten", replay_on)
+    finally:
+        check.ob_filter = saved
+
+
 def gen_task(loader, check, what, replay_on=True):
-    {"inventory": gen_inventory, "rejecting": gen_rejecting, "consumers": gen_consumers, "injection": gen_injection}[what](loader, check, replay_on)
+    {"inventory": gen_inventory, "rejecting": gen_rejecting, "consumers": gen_consumers, "injection": gen_injection, "stmt_lists": gen_stmt_lists}[what](loader, check, replay_on)
 
 
 def generate_reduced(loader, check):
-    for w in ("inventory", "rejecting", "consumers", "injection"):
+    for w in ("inventory", "rejecting", "consumers", "injection", "stmt_lists"):
         gen_task(loader, check, w, False)
 
 
@@ -324,7 +336,7 @@ def run(check: Check):
     check.assume("A-NAMES: add_op through its contract")
     check.assume("value placeholders (Pure items in statement lists) and pending side effects are C06's; this check covers statements, "
                  "unsupported constructs and unhandled productions")
-    check.run_parallel("contracts.c15", "gen_task", [{"what": w} for w in ("inventory", "rejecting", "consumers", "injection")], workers=WORKERS)
+    check.run_parallel("contracts.c15", "gen_task", [{"what": w} for w in ("inventory", "rejecting", "consumers", "injection", "stmt_lists")], workers=WORKERS)
     run_mutants(check, MUTANTS, "contracts.c15", "generate_reduced")
     return check.finish(
         level="proof",
